@@ -226,10 +226,16 @@ def run_kernel(cases: list[tuple[str, str]], tag: str, timeout: int = 300) -> tu
 
 
 class Lock:
+    """exclusive for everything that writes compiled files, shared for readers of them that run long (coqchk): two runs of the
+    same check side by side would otherwise delete Props/<id>.vo under each other's coqchk"""
+
+    def __init__(self, shared: bool = False):
+        self.shared = shared
+
     def __enter__(self):
         WORK.mkdir(parents=True, exist_ok=True)
-        self.f = open(VERIF / ".build.lock", "w")
-        fcntl.flock(self.f, fcntl.LOCK_EX)
+        self.f = open(VERIF / ".build.lock", "a")
+        fcntl.flock(self.f, fcntl.LOCK_SH if self.shared else fcntl.LOCK_EX)
         return self
 
     def __exit__(self, *a):
@@ -497,8 +503,9 @@ def conclude(rep: "Reporter", proofs: dict, direct: dict | None, direct_kind: st
 def coqchk(pid: str) -> dict:
     """independent re-check of the compiled cone of Props/<pid>.vo; -o prints the axioms it relies on"""
     try:
-        p = subprocess.run(["coqchk", "-silent", "-o", "-Q", str(COQ), "MD", f"MD.Props.{pid}"],
-                           capture_output=True, text=True, timeout=2400)
+        with Lock(shared=True):
+            p = subprocess.run(["coqchk", "-silent", "-o", "-Q", str(COQ), "MD", f"MD.Props.{pid}"],
+                               capture_output=True, text=True, timeout=2400)
         out = p.stdout + p.stderr
     except subprocess.TimeoutExpired:
         return {"ok": False, "summary": "coqchk timed out"}
